@@ -137,7 +137,7 @@ int main(int argc, char **argv) {
 
   // rapidcheck prints its own report to stderr; silence it (we report ourselves)
   int savedErr = dup(2);
-  int devnull = open("/dev/null", O_WRONLY);
+  int devnull = open(getenv("PBT_STDERR") ? getenv("PBT_STDERR") : "/dev/null", O_WRONLY | O_CREAT | O_TRUNC, 0644);
   bool ok = true;
   {
     dup2(devnull, 2);
